@@ -126,12 +126,15 @@ Section WithCType.
       match part_of lit (root_sect lit) path with
       | None => None
       | Some r =>
+        (* HEADER / TEXT / HEADER.FIELDS of a part addressed by number: of the message it embeds if it is message/rfc822;
+           without part number: of the message itself (code after notes/C13-fix-4.diff) *)
+        let m := match path with [] => r | _ :: _ => embedded lit r end in
         match sp with
         | SpAll | SpBody => Some (sect_body lit r)
         | SpMime => Some (sect_header lit r)
-        | SpHeader => Some (sect_header lit (embedded lit r))
-        | SpText => Some (sect_body lit (embedded lit r))
-        | SpFields neg fields => header_fields neg (sect_header lit (embedded lit r)) fields
+        | SpHeader => Some (sect_header lit m)
+        | SpText => Some (sect_body lit m)
+        | SpFields neg fields => header_fields neg (sect_header lit m) fields
         end
       end
     end.
